@@ -232,7 +232,7 @@ def check_sums(case):
 
 core.register("C02", [
     Facet("category", lambda tier: triples(tier, True), check_category,
-          n_quick=1200, shards_quick=6, rule=RULE),
+          n_quick=2400, shards_quick=8, rule=RULE),
     Facet("monoidal", lambda tier: triples(tier, False), check_monoidal,
           n_quick=1000, shards_quick=5, rule=RULE),
     Facet("sums", sum_cases, check_sums, n_quick=800, shards_quick=4,
